@@ -662,6 +662,45 @@ fn sweep<'a, 'e, T: IteTable<'a, BddPtr<'a>> + Default>(
         }
         s.recheck_pool();
     }
+    // every A, B, A triple (A != B) over conditioning on a literal, quantification and conditioning on a
+    // partial model, on the same function: "ask, disturb with another kind of call, ask the same again" is
+    // what a memo that is tagged or invalidated by one entry point and not by the other needs
+    if !s.stop {
+        let fstep = if total <= 1024 { 1 } else { 16 };
+        let nmodels = 3usize.pow(n as u32);
+        'q: for &i in perm.iter().step_by(fstep) {
+            let x = i as TT;
+            let mut ops: Vec<Op> = Vec::new();
+            for v in 0..n {
+                ops.push(Op::Cond(x, v, true));
+                ops.push(Op::Cond(x, v, false));
+                ops.push(Op::Exists(x, v));
+            }
+            let nlit = ops.len();
+            for code in 1..nmodels {
+                ops.push(Op::CondModel(x, code));
+            }
+            for (ia, a) in ops.iter().enumerate() {
+                for (ib, b) in ops.iter().enumerate() {
+                    // (two partial models: only when n <= 3, the literal operations always)
+                    if ia == ib || (ia >= nlit && ib >= nlit && n > 3) {
+                        continue;
+                    }
+                    s.issue(a.clone());
+                    s.issue(b.clone());
+                    s.issue(a.clone());
+                }
+                if s.stop {
+                    break 'q;
+                }
+            }
+            if ctx.over_time() || ctx.over_mem() {
+                s.rep.cap("wall-clock or memory cap inside the A-B-A triples");
+                break;
+            }
+        }
+        s.recheck_pool();
+    }
     // compose: all f x v x g
     if !s.stop {
         'c: for &i in perm.iter() {
